@@ -2,6 +2,7 @@
 import itertools
 import json
 import os
+import re
 from fractions import Fraction
 
 from common import (CASES_HEADER, COQ, VERIF, Check, cbool, clist, coq_eval_parallel, cq, cz,
@@ -11,7 +12,7 @@ from props import c18_gen
 GEN = os.path.join(COQ, "theories", "C18", "BlackbirdGen.v")
 CORPUS = os.path.join(VERIF, "harness", "corpus", "c18.jsonl")
 IMPORTS = CASES_HEADER + ("From PV Require Import Base.CasesLib C18.RegisterModel C18.PrepModel "
-                          "C18.BlackbirdModel C18.BlackbirdGen C18.CodeModel.\n")
+                          "C18.BlackbirdModel C18.BlackbirdGen C18.CodeModel C18.TokenModel.\n")
 
 NEST_N = [1, 2, 1, None, None, 1, 2, 1]  # NUMBER_OF_MODES of c18_impl.NEST_CLASSES (re-read from the tree on every run)
 ERR = {None: 0, "ErrInvalidModes": 1, "ErrIndex": 2, "ErrInvalidProgram": 3}
@@ -403,6 +404,153 @@ CFG_OPTS = {
 }
 
 
+
+# =========================================================================== emitted text as tokens
+TOK_DEFS = """
+From Coq Require Import Qabs.
+Open Scope Z_scope.
+Definition fisneg (q : Q) : bool := (Qnum q <? 0)%Z.
+Definition tok_eqb (a b : tok Q) : bool :=
+  match a, b with
+  | TInt _ x, TInt _ y => (x =? y)%Z
+  | TFloat _ x, TFloat _ y => Qeq_bool x y
+  | TIdent _ x, TIdent _ y => String.eqb x y
+  | TMinus _, TMinus _ | TLP _, TLP _ | TRP _, TRP _ | TLB _, TLB _ | TRB _, TRB _ | TComma _, TComma _
+  | TDot _, TDot _ | TEq _, TEq _ | TPipe _, TPipe _ | TColon _, TColon _ | TTrue _, TTrue _ | TFalse _, TFalse _
+  | TNp _, TNp _ | TArray _, TArray _ | TDtype _, TDtype _ | TPq _, TPq _ | TQ _, TQ _ | TWith _, TWith _
+  | TProgram _, TProgram _ | TAs _, TAs _ | TPass _, TPass _ | TNewline _, TNewline _ => true
+  | _, _ => false
+  end.
+Fixpoint pval_eqb (a b : pval Q) : bool :=
+  match a, b with
+  | VInt _ x, VInt _ y => (x =? y)%Z
+  | VBool _ x, VBool _ y => Bool.eqb x y
+  | VFloat _ x, VFloat _ y => Qeq_bool x y
+  | VSeq _ k xs, VSeq _ k' ys =>
+      (match k, k' with Paren, Paren | Brack, Brack => true | _, _ => false end) &&
+      (fix go (l1 l2 : list (pval Q)) : bool :=
+         match l1, l2 with [], [] => true | x :: r, y :: s => pval_eqb x y && go r s | _, _ => false end) xs ys
+  | VArr _ d x, VArr _ d' y => opt_eqb String.eqb d d' && pval_eqb x y
+  | _, _ => false
+  end.
+Definition ci_eqb (a b : cinstr Q) : bool :=
+  String.eqb (ci_cls Q a) (ci_cls Q b) && zl_eqb (ci_modes Q a) (ci_modes Q b) &&
+  list_eqb (fun x y => String.eqb (fst x) (fst y) && pval_eqb (snd x) (snd y)) (ci_params Q a) (ci_params Q b) &&
+  Bool.eqb (ci_cond Q a) (ci_cond Q b).
+(* the model's tokens are the implementation's tokens, and reading the implementation's tokens
+   with the model's reader gives the program back; a refusal on one side is one on the other *)
+Definition tok_ok (x : list (cinstr Q) * option (list (tok Q))) : bool :=
+  let '(p, impl) := x in
+  match program_tokens Q Qabs fisneg p, impl with
+  | Some a, Some b =>
+      list_eqb tok_eqb a b &&
+      match read_program Q Qopp b with Some p' => list_eqb ci_eqb p' p | None => false end
+  | None, None => true
+  | _, _ => false
+  end.
+"""
+
+TOK_NAMES = {"np": "TNp", "array": "TArray", "dtype": "TDtype", "pq": "TPq", "Q": "TQ", "with": "TWith",
+             "Program": "TProgram", "as": "TAs", "pass": "TPass", "True": "TTrue", "False": "TFalse"}
+TOK_OPS = {"-": "TMinus", "(": "TLP", ")": "TRP", "[": "TLB", "]": "TRB", ",": "TComma", ".": "TDot",
+           "=": "TEq", "|": "TPipe", ":": "TColon"}
+
+
+def c_tok(t):
+    """a token of Python's tokenizer (as reported by the runner) -> the model's token; None if the
+    model has no such token (the case is then a disagreement)"""
+    k = t[0]
+    if k == "int":
+        return "(TInt Q %s)" % cz(t[1])
+    if k == "float":
+        return "(TFloat Q %s)" % cq(F(t[1][0], t[1][1]))
+    if k == "newline":
+        return "(TNewline Q)"
+    if k == "name":
+        return "(%s Q)" % TOK_NAMES[t[1]] if t[1] in TOK_NAMES else '(TIdent Q "%s"%%string)' % t[1]
+    if k == "op" and t[1] in TOK_OPS:
+        return "(%s Q)" % TOK_OPS[t[1]]
+    return None
+
+
+def c_pval(spec):
+    k = spec[0]
+    if k in ("float", "npfloat"):
+        return "(VFloat Q %s)" % cq(F(float.fromhex(spec[1])))
+    if k in ("int", "npint"):
+        return "(VInt Q %s)" % cz(spec[1])
+    if k == "pybool":
+        return "(VBool Q %s)" % cbool(spec[1])
+    if k in ("tuple", "list"):
+        return "(VSeq Q %s %s)" % ("Paren" if k == "tuple" else "Brack", clist(spec[1], c_pval))
+    if k == "array":
+        dtype, shape, vals = spec[1], spec[2], spec[3]
+        leaf = {"float64": lambda v: "(VFloat Q %s)" % cq(F(float(v))), "float32": lambda v: "(VFloat Q %s)" % cq(F(float(v))),
+                "int64": lambda v: "(VInt Q %s)" % cz(v), "bool": lambda v: "(VBool Q %s)" % cbool(v)}[dtype]
+
+        def nest(vals, shape):
+            if len(shape) == 1:
+                return "(VSeq Q Brack %s)" % clist(vals, leaf)
+            step = len(vals) // shape[0]
+            return "(VSeq Q Brack %s)" % clist([vals[i * step:(i + 1) * step] for i in range(shape[0])],
+                                              lambda part: nest(part, shape[1:]))
+        return "(VArr Q %s %s)" % ('(Some "float32"%string)' if dtype == "float32" else "None", nest(vals, shape))
+    raise ValueError(spec)
+
+
+def c_cinstr(s):
+    return '(mkCI Q "%s"%%string %s %s %s)' % (
+        s["cls"], clist(s["modes"] or []), clist(s["kwargs"], lambda kv: '("%s"%%string, %s)' % (kv[0], c_pval(kv[1]))),
+        cbool(bool(s.get("when"))))
+
+
+TOK_SCALARS = [["float", fhex(0.1)], ["float", fhex(-0.3)], ["float", fhex(1e-7)], ["float", fhex(-1e-12)],
+               ["float", fhex(123456789.123)], ["float", fhex(1e20)], ["int", 2], ["float", fhex(1 / 3)],
+               ["npfloat", fhex(0.7)], ["int", 0], ["int", -3], ["float", fhex(0.123456789012345)],
+               ["float", fhex(1e-300)], ["float", fhex(-2.0)], ["npint", 3], ["float", fhex(5e-324)],
+               ["float", fhex(1.7976931348623157e308)], ["float", fhex(0.0)], ["int", 10 ** 25]]
+
+
+def gen_tok(rng, table, n):
+    """programs whose parameters lie in the rendered-exactly domain, every keyword given explicitly"""
+    rows = table["rows"]
+    cases = [{"program": []}]
+    while len(cases) < n:
+        prog = []
+        for _ in range(rng.randint(1, 4)):
+            r = rng.random()
+            if r < 0.55:
+                row = rng.choice(rows)
+                prog.append({"cls": row["pq"], "kwargs": [[name, rng.choice(TOK_SCALARS)] for name in row["sig"]],
+                             "modes": rng.sample(range(7), row["nmodes"])})
+            elif r < 0.75:
+                d = rng.randint(1, 3)
+                prog.append({"cls": "NumberState",
+                             "kwargs": [["occupation_numbers", ["tuple", [["int", rng.randint(0, 3)] for _ in range(d)]]],
+                                        ["coefficient", rng.choice(TOK_SCALARS)]],
+                             "modes": rng.choice([None, rng.sample(range(7), d)])})
+            else:
+                kind = rng.choice(["short", "long", "float32", "int", "bool", "vector"])
+                m = rng.randint(1, 3)
+                if kind == "bool":
+                    a = arr("bool", [m, m], [rng.random() < 0.5 for _ in range(m * m)])
+                elif kind == "vector":
+                    a = arr("float64", [m + 1], [rng.choice([0.5, -1.25, 1 / 3, 1e-9, 3.0]) for _ in range(m + 1)])
+                elif kind == "float32":
+                    a = arr("float32", [m, m], [rng.choice([0.5, 1.0, 0.0, -0.25, 3.0]) for _ in range(m * m)])
+                else:
+                    a = gen_matrix(rng, kind, m)
+                if rng.random() < 0.3 and kind != "vector":
+                    prog.append({"cls": "GaussianTransform", "kwargs": [["passive", a], ["active", gen_matrix(rng, "short", m)]],
+                                 "modes": rng.sample(range(7), m)})
+                else:
+                    prog.append({"cls": "Interferometer", "kwargs": [["matrix", a]], "modes": rng.sample(range(7), m)})
+        if rng.random() < 0.12:
+            prog[rng.randrange(len(prog))]["when"] = rng.choice(["str", "lambda"])
+        cases.append({"program": prog})
+    return cases
+
+
 def gen_config_kwargs(rng):
     kw = []
     for k, vs in CFG_OPTS.items():
@@ -429,7 +577,7 @@ def replay(chk: Check, path):
     stream, and the cases quoted by broken correspondences) on the current tree through the same
     tie and search, and reports what still fails.  Proof obligations are not rebuilt."""
     data = json.load(open(path))
-    cases = {"nest": [], "prep": [], "bb": [], "rt": [], "config": [], "cfgeq": []}
+    cases = {"nest": [], "prep": [], "bb": [], "rt": [], "config": [], "cfgeq": [], "tok": []}
     seen = set()
 
     def add(c):
@@ -445,6 +593,8 @@ def replay(chk: Check, path):
             cases["prep"].append(c)
         elif "cls" in c and "nargs" in c:
             cases["bb"].append(c)
+        elif "program" in c and "simulator" not in c:
+            cases["tok"].append(c)
         elif "program" in c:
             cases["rt"].append(c)
         elif "kwargs" in c:
@@ -463,6 +613,7 @@ def replay(chk: Check, path):
                 add(dec_.raw_decode(line[i + 4:])[0])
             except ValueError:
                 pass
+    print("replaying %d witnesses of %s (%s)" % (len(seen), path, ", ".join("%s: %d" % kv for kv in cases.items() if kv[1])))
     run(chk, replay_cases=cases)
 
 
@@ -555,11 +706,12 @@ def run(chk: Check, replay_cases=None):
         cfgeq_cases.append({"a": a, "b": b})
     if R is not None:
         cfg_cases, cfgeq_cases = R["config"], R["cfgeq"]
+    tok_cases = gen_tok(rng, table, (400 if T else 80)) if R is None else R.get("tok", [])
 
     impl = run_impl("c18_impl.py", {"nest": nest_cases, "prep": prep_cases, "bb": bb_cases,
                                     "bb_unknown": ["Foogate", "Interferometer", "dgate", ""],
                                     "bb_outside": outside, "rt": rt_cases, "config": cfg_cases,
-                                    "cfgeq": cfgeq_cases, "cfg_sweep": 1}, timeout=3000,
+                                    "cfgeq": cfgeq_cases, "cfg_sweep": 1, "tok": tok_cases}, timeout=3000,
                     extra_env=nb_env)
 
     # ====================================================== 1. nesting
@@ -775,6 +927,52 @@ Definition bb_ok (x : string * list (string * Z) * list Z * nat * (string * list
                sum(counts.values()), len({json.dumps(c["program"]) for c in rt_cases}), kind="search",
                samples=[{"program": rt_cases[-1]["program"][:2], "simulator": rt_cases[-1]["simulator"]}] if rt_cases else None,
                note="per trip: %s; %d generated programs rejected by a constructor and skipped" % (json.dumps(counts, sort_keys=True), rt_skipped))
+
+    # ====================================================== 4b. the emitted text as tokens vs the token model
+    items, tok_idx, tok_viol = [], [], {}
+    outcome = {}
+    for i, (c, r) in enumerate(zip(tok_cases, impl["tok"])):
+        if "skipped" in r:
+            outcome["skipped"] = outcome.get("skipped", 0) + 1
+            continue
+        outcome[r["error"] or "emitted"] = outcome.get(r["error"] or "emitted", 0) + 1
+        if r["error"] not in (None, "refused"):
+            corr_broken.append("program text: _as_code raised %s on %s" % (r["error"], json.dumps(c)))
+            continue
+        if r["tokens"] is None:
+            impl_t = "None"
+        else:
+            ts = [c_tok(t) for t in r["tokens"]]
+            if any(t is None for t in ts):
+                corr_broken.append("program text: a token outside the modelled grammar (%s) in %s" % (
+                    [t for t in r["tokens"] if c_tok(t) is None][:3], json.dumps(r["text"])))
+                continue
+            impl_t = "(Some %s)" % clist(ts, lambda x: x)
+        items.append("(%s, %s)" % (clist(c["program"], c_cinstr), impl_t))
+        tok_idx.append(i)
+        conditioned = any(s_.get("when") for s_ in c["program"])
+        if conditioned != (r["error"] == "refused"):
+            tok_viol.setdefault("C18:Program._as_code:condition-handling", (
+                "a conditioned instruction must be refused by _as_code and an unconditioned program must not", {"case": c, "observed": r["error"]}))
+        if r["error"] is None and r.get("exec_diff"):
+            tok_viol.setdefault("C18:Program._as_code/exec:" + r["exec_diff"].get("what", "differs").split(" ")[0], (
+                "executing the emitted program text does not give back class, modes and parameter values", {"case": c, "difference": r["exec_diff"], "text": r["text"]}))
+    mm, = eval_cases("c18_tok", TOK_DEFS, "list (cinstr Q) * option (list (tok Q))", "tok_ok", items, per=40)
+    for i in mm:
+        j = tok_idx[i]
+        corr_broken.append("program text: token model != tokenised implementation text on %s -> %s" % (
+            json.dumps(tok_cases[j]), json.dumps(impl["tok"][j].get("text"))))
+    for key, (what, w) in tok_viol.items():
+        chk.violation(key, what, w)
+    for rec in impl.get("strparams", []):
+        chk.notes.append("as_code with a %s: %s%s" % (rec["label"], rec.get("outcome"), (" [" + re.sub(r"0x[0-9a-f]+", "0x..", rec["line"]) + "]") if rec.get("line") else ""))
+        if rec.get("same_class_and_modes") is False:
+            chk.violation("C18:as_code:string-or-callable-parameter:class-or-modes-changed",
+                          "code emitted for a " + rec["label"] + " executes but builds a different instruction", rec)
+    chk.stream("Program._as_code text tokenised by Python's tokenize vs token model (tokens equal; the model's reader on the implementation's tokens returns the program; conditioned instructions refused); text re-executed",
+               len(tok_cases), len({json.dumps(c) for c in tok_cases if c["program"]}),
+               samples=[{"case": tok_cases[-1], "text": impl["tok"][-1].get("text")}] if tok_cases else None,
+               note="outcomes %s; string/callable parameters and conditions: see notes" % json.dumps(outcome, sort_keys=True))
 
     # ====================================================== 5. Config / Simulator code
     items, cfg_idx = [], []
